@@ -188,6 +188,17 @@ def generate(rng, tier, cls):
 
         prod = {'id': 'P1', 'kind': 'raw', 'file': 'f1', 'hex': data.hex()}
 
+        if rng.chance(0.05):
+            # metadata in a codec whose line feed is not 0x0A (EBCDIC,
+            # UTF-7), several lines long in its own terms, invalid at its end
+            enc = rng.choice(['cp037', 'cp500', 'utf-7'])
+            body = ('{\n' + '\n' * rng.randint(3, 30) + '"a": }\n').encode(enc)
+            data = b'#diffx: encoding=utf-8, version=1.0\n' + \
+                b'#.meta: encoding=' + enc.encode() + \
+                b', format=json, length=%d\n' % len(body) + body
+            prod = {'id': 'P1', 'kind': 'raw', 'file': 'f1',
+                    'hex': data.hex()}
+
         if rng.chance(0.06):
             # metadata nested far deeper than any parser recurses
             prod = {'id': 'P1', 'kind': 'raw', 'file': 'f1',
